@@ -13,6 +13,9 @@ Local Open Scope N_scope.
 
 Ltac Zify.zify_post_hook ::= Z.to_euclidean_division_equations.
 
+(* split conjunctions without unfolding anything *)
+Ltac splits := repeat match goal with |- _ /\ _ => split end.
+
 (* ------------------------------------------------------------------ lists *)
 Lemma xor_list_nil_r a : xor_list a [] = [].
 Proof. destruct a; reflexivity. Qed.
@@ -334,7 +337,7 @@ Section Proofs.
     destruct (total mod 16 =? 0) eqn:Hm; cbn [negb].
     - apply N.eqb_eq in Hm. exists 0%nat, s, false.
       cbn [firstn skipn xor_list N.of_nat]. rewrite N.sub_0_r, N.add_0_r.
-      repeat split; try assumption; try lia; try (intros; discriminate).
+      splits; try assumption; try lia; try (intros; discriminate).
     - apply N.eqb_neq in Hm. specialize (Hks Hm).
       assert (Hnz : total <> 0) by (intros ->; apply Hm; reflexivity).
       specialize (Hpos Hnz).
@@ -400,7 +403,7 @@ Section Proofs.
   Proof.
     induction fuel as [|fuel IH]; intros total s inp Hinv Hm Hbound Hfuel; unfold mid_spec.
     - destruct inp; [|cbn in Hfuel; lia]. exists 0%nat, s. cbn.
-      rewrite N.add_0_r. repeat split; try assumption; lia.
+      rewrite N.add_0_r. splits; try assumption; lia.
     - cbn [whole].
       destruct (16 <=? N.of_nat (length inp)) eqn:Hge.
       + apply N.leb_le in Hge.
@@ -422,9 +425,9 @@ Section Proofs.
           change (N.of_nat 16) with 16.
           do 3 f_equal. rewrite skipn_length. lia.
         * replace (total + N.of_nat (16 + k)) with (total + 16 + N.of_nat k) by lia.
-          repeat split; try assumption; lia.
+          splits; try assumption; lia.
       + apply N.leb_gt in Hge. exists 0%nat, s. cbn [firstn skipn xor_list N.of_nat].
-        rewrite N.sub_0_r, N.add_0_r. repeat split; try assumption; lia.
+        rewrite N.sub_0_r, N.add_0_r. splits; try assumption; lia.
   Qed.
 
   (* ---------------------------------------------------------------- post_wholeblock *)
